@@ -73,10 +73,8 @@ Proof.
         destruct (d_pb d); simpl; now rewrite <- !app_assoc.
       * rewrite decorate_pub_spec, map_fst_pair. unfold base_pub. rewrite Hp. simpl.
         rewrite app_nil_r. now rewrite <- !app_assoc.
-      * destruct (s_pubdecs s) as [|pd pds] eqn:Hd.
-        -- simpl. now rewrite <- !app_assoc.
-        -- rewrite decorate_pub_spec, map_fst_pair. unfold base_pub. rewrite Hp. simpl.
-           rewrite app_nil_r. now rewrite <- !app_assoc.
+      * rewrite decorate_pub_spec, map_fst_pair. unfold base_pub. rewrite Hp. simpl.
+        rewrite app_nil_r. now rewrite <- !app_assoc.
   - rewrite <- (exits_add_apps _ (flat_map app_of (rev eff))), Ho. now rewrite <- !app_assoc.
   - rewrite <- (exits_add_apps _ (flat_map app_of (rev eff))), Ho. now rewrite <- !app_assoc.
 Qed.
@@ -1206,3 +1204,17 @@ Qed.
 Theorem decorators_all ops :
   pubdecs (exec rinit ops) = pdecs_of ops /\ subdecs (exec rinit ops) = sdecs_of ops.
 Proof. destruct (pinv_all ops) as [_ _ _ H1 H2 _]. now split. Qed.
+
+(** * Round "proofs 2": a nil publisher is replaced by the no-publisher stand-in: nothing is called on nil *)
+Theorem nil_publisher_never_closed h s : publisher_close_panics false h s = false.
+Proof. unfold publisher_close_panics. destruct (h_pub h); try reflexivity. now destruct (s_pubdecs s). Qed.
+Lemma nil_publisher_pinned_refuted :
+  exists h s, publisher_close_panics true h s = true.
+Proof. exists (HC 12 1 7 22 PNil 33 3), (ST [] [50%N] []). reflexivity. Qed.
+(** a handler with a nil publisher behaves, message by message, like one added with AddNoPublisherHandler
+    whose function may return messages: decorators see the batch, nothing is published, Nack *)
+Theorem nil_publisher_trace h s d x l : h_pub h = PNil -> chain_outcome h s d = Ret (x :: l) ->
+  publish_calls (dispatch h s d) = [] /\ settles (dispatch h s d) = [false].
+Proof.
+  intros Hp Ho. apply (c08_no_publisher_output_nacks h s d x l); [|assumption]. intros id ty. rewrite Hp. discriminate.
+Qed.
